@@ -409,7 +409,7 @@ fn e2_history(srv: &Srv, cfg: &SrvCfg, order: &[u8], kill_by_error: bool, natura
 
 /// A single upload through the real Server that fails after j blocks (peer ERROR, or silence with timeout=1), onto a
 /// fresh name or — with --overwrite — onto an existing file.
-fn e2_abort(srv: &Srv, cfg: &SrvCfg, existing: bool, j: usize, silence: bool) -> (Vec<(String, String, serde_json::Map<String, Value>)>, String) {
+fn e2_abort(srv: &Srv, cfg: &SrvCfg, existing: bool, j: usize, silence: bool, big_blk: bool) -> (Vec<(String, String, serde_json::Map<String, Value>)>, String) {
     let mut viol = vec![];
     let name = format!("c13_abort_{}", std::process::id());
     let path = format!("{}/{}", srv.recv_dir, name);
@@ -418,9 +418,14 @@ fn e2_abort(srv: &Srv, cfg: &SrvCfg, existing: bool, j: usize, silence: bool) ->
         std::fs::write(&path, content(3000, 8)).unwrap();
     }
     let body = content(2000, 9);
-    let desc = format!("upload onto {} name, {} after {j} block(s)", if existing { "an existing" } else { "a fresh" }, if silence { "peer silence (timeout=1)" } else { "peer ERROR" });
+    let desc = format!("upload onto {} name{}, {} after {j} block(s)", if existing { "an existing" } else { "a fresh" }, if big_blk { " with blksize 65500 requested" } else { "" }, if silence { "peer silence (timeout=1)" } else { "peer ERROR" });
     let mut c = Client::new(srv.addr);
-    let opts: Vec<(String, String)> = if silence { vec![("timeout".into(), "1".into())] } else { vec![] };
+    let mut opts: Vec<(String, String)> = if silence { vec![("timeout".into(), "1".into())] } else { vec![] };
+    if big_blk {
+        opts.push(("blksize".into(), "65500".into())); // answered with 65464
+    }
+    let bs = if big_blk { 65464 } else { 512 };
+    let body = if big_blk { content(3 * 65464 + 10, 9) } else { body };
     c.to_server(&rc::request(true, name.as_bytes(), &opts));
     let first = c.recv_wait(BACKSTOP);
     if !matches!(first.as_ref().map(|(b, _)| rc::decode(b)), Some(Ok(RPacket::Ack(0))) | Some(Ok(RPacket::Oack(_)))) {
@@ -433,7 +438,7 @@ fn e2_abort(srv: &Srv, cfg: &SrvCfg, existing: bool, j: usize, silence: bool) ->
     // otherwise "no transfer thread alive" could simply mean "not started yet"
     barrier(srv);
     for k in 1..=j {
-        c.to_peer(&rc::data(k as u16, &body[(k - 1) * 512..k * 512]));
+        c.to_peer(&rc::data(k as u16, &body[(k - 1) * bs..k * bs]));
         let _ = c.recv_wait(BACKSTOP);
     }
     if !silence {
@@ -454,8 +459,8 @@ fn e2_abort(srv: &Srv, cfg: &SrvCfg, existing: bool, j: usize, silence: bool) ->
         (Some(_), false) => viol.push(("K1-partial-not-removed".into(), format!("through the real server, {desc}: clean-on-error is in force but the partial file is still there"), facts(&[("existing", json!(existing)), ("panic", json!(false))]))),
         (None, true) => viol.push(("K2-kept-file-missing".into(), format!("through the real server, {desc}: keep-on-error but the file was removed"), facts(&[("existing", json!(existing))]))),
         (Some(b), true) => {
-            if !(b.len() <= j * 512 && body[..b.len()] == b[..]) {
-                viol.push(("K3-kept-not-prefix".into(), format!("through the real server, {desc}: the kept file ({} bytes) is not a prefix of the {} bytes sent", b.len(), j * 512), facts(&[("existing", json!(existing))])));
+            if !(b.len() <= j * bs && body[..b.len()] == b[..]) {
+                viol.push(("K3-kept-not-prefix".into(), format!("through the real server, {desc}: the kept file ({} bytes) is not a prefix of the {} bytes sent", b.len(), j * bs), facts(&[("existing", json!(existing))])));
             }
         }
         (None, false) => {}
@@ -477,8 +482,8 @@ pub fn e2_abort_cell(spec: &Value) -> Value {
         if existing && !cfg.overwrite {
             continue;
         }
-        for &j in &js {
-            let (viol, desc) = e2_abort(&srv, &cfg, existing, j, silence);
+        for &(j, big) in js.iter().map(|j| (*j, false)).chain(if silence { vec![] } else { vec![(1usize, true), (2, true)] }).collect::<Vec<_>>().iter() {
+            let (viol, desc) = e2_abort(&srv, &cfg, existing, j, silence, big);
             c.executions += 1;
             c.states += 1;
             c.transitions += j as u64 + 2;
